@@ -19,18 +19,18 @@ import (
 var renamerNames = strings.Fields("e t n s o i a r c l d u h m f p g v b j y _ w O x C E k A S M F T z D N L R P H I B V $ W U K q Y G X Q Z J ee te ne et tt nt")
 
 type scopeGen struct {
-	r      *core.Rand
-	sb     strings.Builder
-	tag    int
-	site   int
-	stack  [][]string // visible names per scope
+	r       *core.Rand
+	sb      strings.Builder
+	tag     int
+	site    int
+	stack   [][]string // visible names per scope
 	fnNames []string
-	depth  int
-	strict bool
+	depth   int
+	strict  bool
 	useWith bool
-	bound  []bool
-	fnUsed []map[string]bool
-	keep   bool // guard js-keepvarnames-var-hoisted-into-lexical-block: names are unique per function
+	bound   []bool
+	fnUsed  []map[string]bool
+	keep    bool // guard js-keepvarnames-var-hoisted-into-lexical-block: names are unique per function
 }
 
 func (g *scopeGen) w(s string) { g.sb.WriteString(s) }
